@@ -4,6 +4,9 @@ CONSTANTS
   MaxTriesSet = {1, 2, 3}
   MaxList = 3
   Devs = {}
+  RwSets = {{}}
+  Utf8Set = {FALSE}
+  BounceStages = {"ok"}
   Gen = FALSE
 CHECK_DEADLOCK FALSE
 POSTCONDITION Post
